@@ -76,7 +76,7 @@ PROPS["C02"] = {
     "module": "RCE.Props.C02",
     "theorems": ["RCE.Props.C02.unmake_make", "RCE.Props.C02.isLegalMove_pure", "RCE.Props.C02.legalMoves_pure",
                  "RCE.Props.C02.nested_make_unmake"],
-    "streams": {"quick": [WALK_Q], "thorough": [WALK_T]},
+    "streams": {"quick": [WALK_Q, FEN_Q], "thorough": [WALK_T, FEN_T]},
     "tier_b_kinds": [],
     "rule": WALK_RULE + "; for C02 the full state dump (15 bitboards, turn, counters, ep, key, every undo record, repetition record) is compared "
             "before/after every make-unmake pair (exhaustive descents, random nested take-backs, complete unwinding of every game) and every legal-move query",
@@ -104,6 +104,10 @@ SEARCH_RULE = ("search cases = (position with its game history: the 50 seed FENs
                "node count, seldepth, poll count, cache size and checksum) and with the property's own oracle; further modes by property: one-sided and asymmetric game clocks on a virtual clock (C09/C13), the fifty-move horizon with castling / captures / promotions at hand and mate-rich mined positions with the cache neutralised (C11), mined mates in one / two / avoidable threats after earlier searches of the position and of its parent (C12), sparse level endgames to depth 8 with the property-level checks only (C14), chains of different searches on one thread and fresh searches before and after a 4.5-million-entry cache (C16); distinct_nontrivial = distinct case descriptors, counted by the driver")
 
 SP_Q = S("search-plain", "plain", 100, 3, extra=["--repeat", 2])
+# deep searches judged on the engine's own output only (no model run): the position key must be restored, PVs legal, one bestmove
+SD_Q = dict(S("search-deepseed", "deepseed", 120, 5), driver="search:0")
+SD_T = dict(S("search-deepseed", "deepseed", 400, 6), driver="search:0")
+SE_Q = dict(S("search-deepend", "deepend", 320, 8), driver="search:0")
 SO_Q = dict(S("search-off", "off", 100, 3), driver="search:6")
 SB_Q = S("search-budget", "budget", 32, 2, extra=["--step", 1, "--maxcases", 120])
 SS_Q = S("search-stop", "stop", 32, 2, extra=["--step", 3, "--maxcases", 120])
@@ -211,7 +215,8 @@ PROPS["C01"] = {
     "theorems": ["RCE.Props.C01.attacked_exact", "RCE.Props.C01.inCheck_exact", "RCE.Props.C01.pseudo_exact",
                  "RCE.Props.C01.legal_exact", "RCE.Props.C01.mate_stalemate_exact", "RCE.Props.C01.make_keeps",
                  "RCE.Props.C01.perft_exact", "RCE.Props.C01.perft_start"],
-    "streams": {"quick": [WALK_Q], "thorough": [WALK_T]},
+    # the FEN family too: positions SET UP from text (as a GUI does) must offer the rules' moves just like positions reached by play
+    "streams": {"quick": [WALK_Q, FEN_Q], "thorough": [WALK_T, FEN_T]},
     "tier_b_kinds": ["pseudo-legal-order", "legal-list"],
     "rule": WALK_RULE + "; for C01 the sorted legal-move set (from/to/promotion) and both in-check answers and both attacked-square sets of every explored position are compared with the rules spec "
             "(Tier A) and the generation-order lists with the model (Tier B)",
@@ -300,3 +305,11 @@ PROPS["C12"] = {
 PROPS["C14"]["extra"] = procdrive.c14_extra
 PROPS["C14"]["need_engine"] = True
 PROPS["C01"]["extra"] = procdrive.c01_extra
+
+# the engine's own board inside the search: after every search that ran to its depth its key must be the root's and the
+# from-scratch key again (make / unmake / any other move-making the search uses).  Deep searches, engine output only.
+for _p in ("C02", "C04"):
+    PROPS[_p]["streams"]["quick"] = PROPS[_p]["streams"]["quick"] + [SP_Q, SD_Q, SE_Q]
+    PROPS[_p]["streams"]["thorough"] = PROPS[_p]["streams"]["thorough"] + [SP_T, SD_T]
+    PROPS[_p]["rule"] += ("; plus search streams (plain depth <= 3 against the model; the seed positions to depth 5 and sparse endgames to depth 8 judged on the engine's own output): "
+                          "after every uninterrupted search the key of the search's own board must equal the root's and the from-scratch key")
